@@ -10,6 +10,8 @@ import flax.linen as nn
 from flax import errors
 from flax.core import scope as core_scope
 
+SEL = {'cond': 0, 'switch': 0, 'while': 1}     # branch taken by every cond / switch statement and trip count of every while statement of the current run
+LIFT = [True]     # False: ignore the transform annotations and run the equivalent plain code
 TRACE = []          # ('key', path, stream_requested, key_data) / ('param', path, name, key_data)
 PROGS = {}
 CLASSES = {}
@@ -39,6 +41,7 @@ def ev(e, locals_, x):
 class ProgBase(nn.Module):
   prog_id: int = 0
   cls_id: int = 0
+  sel: tuple = (0, 0, 1)      # (branch of every cond, branch of every switch, trip count of every while) for this run: a static attribute
 
   @nn.compact
   def __call__(self, x):
@@ -73,12 +76,59 @@ class ProgBase(nn.Module):
       elif k == 'let':
         locals_[s[1]] = ev(s[2], locals_, x)
       elif k == 'child':
-        insts[s[1]] = get_class(s[2])(self.prog_id, s[2], name=s[3])
+        cls = get_class(s[2])
+        if len(s) == 5 and LIFT[0]:
+          cls = lifted_class(s[2], s[4])
+        insts[s[1]] = cls(self.prog_id, s[2], self.sel, name=s[3])
+      elif k == 'ctl':
+        _, xv, kind, branches, arg = s
+        z = ev(arg, locals_, x)
+        outer = dict(locals_)
+
+        def mk(br, outer=outer):
+          stmts, ret_b = br
+
+          def fn(mdl, zz):
+            for t in stmts:
+              mdl.put_variable(t[1], t[2], ev(t[3], outer, zz))
+            return ev(ret_b, outer, zz)
+          return fn
+        fns = [mk(b) for b in branches]
+        if LIFT[0]:
+          if kind == 'cond':
+            locals_[xv] = nn.cond(jnp.asarray(self.sel[0] == 0), fns[0], fns[1], self, z)
+          elif kind == 'switch':
+            locals_[xv] = nn.switch(jnp.asarray(self.sel[1]), fns, self, z)
+          else:
+            kk = jnp.asarray(self.sel[2], dtype=jnp.int64)
+            i, zz = nn.while_loop(lambda mdl, c: c[0] < kk, lambda mdl, c: (c[0] + 1, fns[0](mdl, c[1])), self, (jnp.zeros((), jnp.int64), z),
+                                  carry_variables=sorted({t[1] for t in branches[0][0]}) or False, broadcast_variables=True)
+            locals_[xv] = zz
+        else:
+          if kind == 'cond':
+            locals_[xv] = fns[self.sel[0]](self, z)
+          elif kind == 'switch':
+            locals_[xv] = fns[self.sel[1]](self, z)
+          else:
+            for _ in range(self.sel[2]):
+              z = fns[0](self, z)
+            locals_[xv] = z
       elif k == 'call':
         locals_[s[1]] = insts[s[2]](ev(s[3], locals_, x))
       else:
         raise ValueError(s)
     return ev(ret, locals_, x)
+
+
+LIFTED = {}
+
+
+def lifted_class(cid, t):
+  if (cid, t) not in LIFTED:
+    base = get_class(cid)
+    LIFTED[(cid, t)] = {'jit': lambda: nn.jit(base), 'remat': lambda: nn.remat(base),
+                        'mapvars': lambda: nn.map_variables(base, 'params', mutable=True)}[t]()
+  return LIFTED[(cid, t)]
 
 
 def get_class(cid):
@@ -87,9 +137,11 @@ def get_class(cid):
   return CLASSES[cid]
 
 
-def top_module(prog, pid):
+def top_module(prog, pid, sel=None):
   PROGS[pid] = prog
-  return get_class(prog['top'])(pid, prog['top'])
+  if sel is None:
+    return get_class(prog['top'])(pid, prog['top'])
+  return get_class(prog['top'])(pid, prog['top'], (sel['cond'], sel['switch'], sel['while']))
 
 
 def dec_filter(f):
